@@ -499,25 +499,100 @@ func (g *Gen) callCommon(fn *ssa.Function, st *State, call *ssa.CallCommon, resu
 						e2["arg:"+n] = args[i]
 					}
 				}
+				// variadic call with a literal argument list: arg_va0, arg_va1, ... are the values passed
+				if sig, ok := call.Value.Type().Underlying().(*types.Signature); ok && sig.Variadic() && len(call.Args) > 0 {
+					if inner, ok := g.varargInners(st, call.Args[len(call.Args)-1]); ok {
+						for i, iv := range inner {
+							e2[fmt.Sprintf("arg:va%d", i)] = g.val(st, iv)
+						}
+					}
+				}
 				lbl := cp[0]
 				if lbl == "" {
 					lbl = fmt.Sprint(ci + 1)
 				}
-				g.oblige(st, "callpre", fmt.Sprintf("callpre[%s](%s)#%d", lbl, dispName, g.ord("callpre."+lbl)), g.line(pos), g.spec(st, cp[2], e2))
+				// a clause that mentions a variable which is not in scope at this call (a loop variable, at a
+				// call before the loop) does not apply to this call; it must still apply to some call
+				goal, inScope := g.specInScope(st, cp[2], e2)
+				if !inScope {
+					delete(g.clauseBound, fmt.Sprintf("callpre#%d", ci))
+					if g.clauseEval[fmt.Sprintf("callpre#%d", ci)] {
+						g.clauseBound[fmt.Sprintf("callpre#%d", ci)] = true
+					}
+					continue
+				}
+				if g.clauseEval == nil {
+					g.clauseEval = map[string]bool{}
+				}
+				g.clauseEval[fmt.Sprintf("callpre#%d", ci)] = true
+				g.oblige(st, "callpre", fmt.Sprintf("callpre[%s](%s)#%d", lbl, dispName, g.ord("callpre."+lbl)), g.line(pos), goal)
+			}
+		}
+	}
+	// caller-side ghost assignments (`ghostset CALLEE :: $g = expr`), applied once the call's results exist
+	applyGhostSets := func(res Val) {
+		rt := callResults(call)
+		if g.c != nil { // also inside deferred closures and inlined helpers of the function under contract
+			for gi, gs := range g.c.GhostSet {
+				if !g.calleeMatches("ghostset", gi, gs[0], dispName, callee) {
+					continue
+				}
+				e2 := g.invEnv()
+				for i, n := range names {
+					if i < len(args) {
+						e2["arg:"+n] = args[i]
+					}
+				}
+				for i := 0; i < rt.Len(); i++ {
+					rv := res
+					if rt.Len() > 1 {
+						rv = res.Tup[i]
+					}
+					if n := rt.At(i).Name(); n != "" && n != "_" {
+						e2[n] = rv
+						e2["$p:"+n] = Val{}
+					}
+					if cc != nil && i < len(cc.Results) {
+						e2[cc.Results[i]] = rv
+						e2["$p:"+cc.Results[i]] = Val{}
+					}
+				}
+				if sig, ok := call.Value.Type().Underlying().(*types.Signature); ok && sig.Variadic() && len(call.Args) > 0 {
+					if inner, ok := g.varargInners(st, call.Args[len(call.Args)-1]); ok {
+						for i, iv := range inner {
+							e2[fmt.Sprintf("arg:va%d", i)] = g.val(st, iv)
+						}
+					}
+				}
+				p := &sp{toks: lex(gs[2]), g: g, st: st, env: e2, src: gs[2]}
+				v := p.iff()
+				if p.i != len(p.toks) {
+					panic(specErr{"ghostset: trailing tokens in " + gs[2]})
+				}
+				st.ghost[gs[1]] = Val{T: v.T, Kind: v.Kind}
 			}
 		}
 	}
 	if trySink && g.sinkInvoke(st, call, args, result) {
+		if result != nil {
+			applyGhostSets(g.regs[result])
+		}
 		return
 	}
 	if callee != nil { // length model of the formatting functions, after the callpre clauses saw the call
 		switch callee.String() {
 		case "fmt.Sprintf":
 			if g.fmtSprintf(st, call, result) {
+				if result != nil {
+					applyGhostSets(g.regs[result])
+				}
 				return
 			}
 		case "fmt.Fprintf":
 			if g.fmtFprintf(st, call, result) {
+				if result != nil {
+					applyGhostSets(g.regs[result])
+				}
 				return
 			}
 		}
@@ -631,39 +706,7 @@ func (g *Gen) callCommon(fn *ssa.Function, st *State, call *ssa.CallCommon, resu
 	if cc == nil {
 		g.unmodelled["uncontracted call "+dispName+" (havoc, may panic)"] = true
 	}
-	if g.c != nil { // also inside deferred closures and inlined helpers of the function under contract
-		for gi, gs := range g.c.GhostSet {
-			if !g.calleeMatches("ghostset", gi, gs[0], dispName, callee) {
-				continue
-			}
-			e2 := g.invEnv()
-			for i, n := range names {
-				if i < len(args) {
-					e2["arg:"+n] = args[i]
-				}
-			}
-			for i := 0; i < rt.Len(); i++ {
-				rv := res
-				if rt.Len() > 1 {
-					rv = res.Tup[i]
-				}
-				if n := rt.At(i).Name(); n != "" && n != "_" {
-					e2[n] = rv
-					e2["$p:"+n] = Val{}
-				}
-				if cc != nil && i < len(cc.Results) {
-					e2[cc.Results[i]] = rv
-					e2["$p:"+cc.Results[i]] = Val{}
-				}
-			}
-			p := &sp{toks: lex(gs[2]), g: g, st: st, env: e2, src: gs[2]}
-			v := p.iff()
-			if p.i != len(p.toks) {
-				panic(specErr{"ghostset: trailing tokens in " + gs[2]})
-			}
-			st.ghost[gs[1]] = Val{T: v.T, Kind: v.Kind}
-		}
-	}
+	applyGhostSets(res)
 	g.setResult(result, res)
 }
 
@@ -796,4 +839,18 @@ func (g *Gen) havocByContract(st *State, cc *Contract, env map[string]Val, args 
 			g.havocField(st, m)
 		}
 	}
+}
+
+// specInScope evaluates a clause; ok=false if it mentions a name that is not in scope here.
+func (g *Gen) specInScope(st *State, src string, env map[string]Val) (goal string, ok bool) {
+	defer func() {
+		if r := recover(); r != nil {
+			if e, isSpec := r.(specErr); isSpec && strings.HasPrefix(e.msg, "spec: unknown name") {
+				goal, ok = "", false
+				return
+			}
+			panic(r)
+		}
+	}()
+	return g.spec(st, src, env), true
 }
